@@ -117,7 +117,7 @@ def pregen(cfg):
     return msgs
 
 
-def build_lean(prop):
+def build_lean(prop, tier="quick"):
     """Returns dict(ok, obligations, discharged, failed=[...], axioms={...}, log)."""
     cfg = PROPS[prop]
     res = dict(ok=True, failed=[], axioms={}, log="")
@@ -150,6 +150,16 @@ def build_lean(prop):
             res["failed"] += errs[:20] or ["lake build " + " ".join(cfg["props"])]
             res["discharged"] = 0
             return res
+        # 1b. thorough tier: independent re-check of the compiled proof modules by leanchecker
+        res["leanchecker"] = None
+        if tier == "thorough":
+            mods = [m for m in lean_closure(cfg["props"]) if m.startswith("Hostd.")]
+            rc, out = run(["lake", "env", "leanchecker"] + mods, cwd=LEAN)
+            res["leanchecker"] = dict(modules=len(mods), ok=rc == 0)
+            if rc != 0:
+                res["ok"] = False
+                res["failed"].append("leanchecker rejected: " + out[-300:].replace("\n", " "))
+                res["log"] += out[-3000:]
         # 2. axioms audit
         audit = "".join(f"import {m}\n" for m in cfg["props"]) + "".join(f"#print axioms {t}\n" for _, t in thms)
         apath = os.path.join(WORK, f"audit_{prop}.lean")
@@ -390,7 +400,7 @@ def main(argv):
     violations, known_hits, notes = [], [], []
     os.makedirs(os.path.join(VERIF, "replays"), exist_ok=True)
     try:
-        lean = build_lean(prop)
+        lean = build_lean(prop, tier)
         log(f"[{prop}] lean: obligations={lean.get('obligations')} discharged={lean.get('discharged')} ok={lean['ok']}")
         if any(f.startswith("driver:") for f in lean["failed"]):
             rp = os.path.join(VERIF, "replays", f"{prop}-{seed}-driver.json")
@@ -549,7 +559,7 @@ def main(argv):
             violations=len(violations),
             coverage=dict(
                 obligations=max(1, lean.get("obligations", 0)), discharged=lean.get("discharged", 0),
-                checker_cmd=f"cd lean && lake build {' '.join(cfg['props'])} {cfg['driver']} && lake env lean .work/audit_{prop}.lean (#print axioms)",
+                checker_cmd=f"cd lean && lake build {' '.join(cfg['props'])} {cfg['driver']} && lake env lean .work/audit_{prop}.lean (#print axioms)" + (f" && lake env leanchecker <{lean['leanchecker']['modules']} modules of the closure>: {'accepted' if lean['leanchecker']['ok'] else 'REJECTED'}" if lean.get("leanchecker") else ""),
                 trusted_base=cfg.get("trusted_base", []) + ["Lean 4 kernel", "axioms: " + ",".join(sorted({a for v in lean.get('axioms', {}).values() for a in v}) or ["none"]),
                                                            "harness + canonicalisation (harness/src/%s)" % cfg["harness"], "lib/vcheck.py"],
                 theorems=lean.get("theorems", []),
